@@ -1,4 +1,6 @@
+mod air;
 mod dump;
+mod sym;
 mod exec;
 mod masm;
 mod parse;
@@ -20,6 +22,10 @@ fn run_family(family: &str, path: &str) {
             "stream" => trace::run_stream(&line),
             "iter" => trace::run_iter(&line),
             "batch" => trace::run_batch(&line),
+            "aireval" => air::run_aireval(&line),
+            "frames" => air::run_frames(&line),
+            "perturb" => air::run_perturb(&line),
+            "airfull" => air::run_airfull(&line),
             "tracehash" => trace::run_tracehash(&line),
             "asmdump" => masm::run_asmdump(&line),
             _ => panic!("unknown family {family}"),
@@ -36,6 +42,7 @@ fn main() {
     let args: Vec<String> = std::env::args().collect();
     match args[1].as_str() {
         "dump-const" => dump::dump_const(),
+        "dump-air" => air::dump_air(),
         "run" => run_family(&args[2], &args[3]),
         x => panic!("unknown command {x}"),
     }
